@@ -1,2 +1,1789 @@
-//! placeholder until the token-presentation check is wired in
-pub fn run_sub(_report: &crate::core::Report) {}
+//! C14a — server acceptance of address-validation tokens, against a reference model of "what a
+//! token binds" (plus the shared C14 machinery: link tap, cleartext header parsing, Retry tags).
+//!
+//! A world holds one server endpoint with a fixed token key (SimCrypto's keyed-tag key or the real
+//! ring HKDF/AES-256-GCM key quinn uses by default), a harness wall clock with generated jumps, one of
+//! four token logs and generated lifetimes. Tokens are *harvested* in that world (Retry tokens cut
+//! out of Retry packets on the link, NEW_TOKEN tokens decoded from NEW_TOKEN frames / captured by a
+//! recording `TokenStore`), then presented again — genuine, bit-flipped, truncated, extended,
+//! spliced, re-sealed under another key — from generated addresses at generated clock values, by
+//! real clients (whose `TokenStore::take` returns the chosen bytes) or by crafted Initials.
+//!
+//! The oracle never decrypts anything: a presented byte string is looked up in the registry of
+//! byte strings the server really issued; its bindings (kind, address, issue time, original DCID)
+//! were recorded by the harness at issue time.
+
+use super::c14b;
+use crate::cfg::SimClock;
+use crate::core::*;
+use crate::simcrypto::{self, SimTokenKey};
+use crate::simnet::*;
+use crate::spec::*;
+use crate::wire;
+use bytes::Bytes;
+use proptest::prelude::*;
+use quinn_proto::crypto::HandshakeTokenKey;
+use quinn_proto::verif::codec::{token_decode, token_encode, VTokenPayload};
+use quinn_proto::{
+    BloomTokenLog, ConnectionError, ConnectionId, NoneTokenLog, ServerConfig, Side, TimeSource, TokenLog, TokenReuseError,
+    TokenStore, TransportErrorCode, ValidationTokenConfig,
+};
+use serde::{Deserialize, Serialize};
+use serde_json::json;
+use std::cell::RefCell;
+use std::collections::{BTreeMap, HashSet};
+use std::net::{IpAddr, Ipv4Addr, Ipv6Addr, SocketAddr};
+use std::rc::Rc;
+use std::sync::atomic::{AtomicU64, Ordering};
+use std::sync::{Arc, Mutex};
+use std::time::{Duration, SystemTime, UNIX_EPOCH};
+
+// ---------------------------------------------------------------------------------------------
+// Shared machinery (also used by c14b)
+// ---------------------------------------------------------------------------------------------
+
+/// Cleartext part of a long-header packet (valid under header protection as well: only the low
+/// bits of the first byte and the packet number are masked)
+#[derive(Debug, Clone)]
+pub struct Long {
+    pub first: u8,
+    pub ty: wire::PktType,
+    pub version: u32,
+    pub dcid: Vec<u8>,
+    pub scid: Vec<u8>,
+    /// Initial: token field; Retry: retry token
+    pub token: Vec<u8>,
+    /// Retry: integrity tag
+    pub tag: Vec<u8>,
+    /// total length of this packet inside the datagram
+    pub len: usize,
+}
+
+pub fn parse_long(d: &[u8]) -> Option<Long> {
+    let mut r = wire::Rd::new(d);
+    let first = r.u8().ok()?;
+    if first & 0x80 == 0 {
+        return None;
+    }
+    let version = r.u32().ok()?;
+    let dl = r.u8().ok()? as usize;
+    let dcid = r.bytes(dl).ok()?.to_vec();
+    let sl = r.u8().ok()? as usize;
+    let scid = r.bytes(sl).ok()?.to_vec();
+    if version == 0 {
+        return Some(Long { first, ty: wire::PktType::VersionNegotiation, version, dcid, scid, token: vec![], tag: vec![], len: d.len() });
+    }
+    let ty = match (first >> 4) & 3 {
+        0 => wire::PktType::Initial,
+        1 => wire::PktType::ZeroRtt,
+        2 => wire::PktType::Handshake,
+        _ => wire::PktType::Retry,
+    };
+    if ty == wire::PktType::Retry {
+        let rest = r.remaining();
+        if rest < 16 {
+            return None;
+        }
+        let token = r.bytes(rest - 16).ok()?.to_vec();
+        let tag = r.bytes(16).ok()?.to_vec();
+        return Some(Long { first, ty, version, dcid, scid, token, tag, len: d.len() });
+    }
+    let mut token = vec![];
+    if ty == wire::PktType::Initial {
+        token = r.var_bytes().ok()?.to_vec();
+    }
+    let length = r.var().ok()? as usize;
+    if length > r.remaining() {
+        return None;
+    }
+    Some(Long { first, ty, version, dcid, scid, token, tag: vec![], len: r.pos + length })
+}
+
+/// All coalesced long-header packets at the front of a datagram
+pub fn long_packets(d: &[u8]) -> Vec<Long> {
+    let mut out = vec![];
+    let mut off = 0;
+    while off < d.len() {
+        let Some(p) = parse_long(&d[off..]) else { break };
+        let l = p.len.max(1);
+        out.push(p);
+        off += l;
+    }
+    out
+}
+
+/// RFC 9001 5.8 Retry integrity tag (QUIC v1), computed with ring independently of quinn
+pub fn real_retry_tag(odcid: &[u8], packet_without_tag: &[u8]) -> [u8; 16] {
+    use ring::aead;
+    const KEY: [u8; 16] = [0xbe, 0x0c, 0x69, 0x0b, 0x9f, 0x66, 0x57, 0x5a, 0x1d, 0x76, 0x6b, 0x54, 0xe3, 0x68, 0xc8, 0x4e];
+    const NONCE: [u8; 12] = [0x46, 0x15, 0x99, 0xd3, 0x5d, 0x63, 0x2b, 0xf2, 0x23, 0x98, 0x25, 0xbb];
+    let mut pseudo = Vec::with_capacity(packet_without_tag.len() + odcid.len() + 1);
+    pseudo.push(odcid.len() as u8);
+    pseudo.extend_from_slice(odcid);
+    pseudo.extend_from_slice(packet_without_tag);
+    let key = aead::LessSafeKey::new(aead::UnboundKey::new(&aead::AES_128_GCM, &KEY).unwrap());
+    let tag = key.seal_in_place_separate_tag(aead::Nonce::assume_unique_for_key(NONCE), aead::Aad::from(pseudo), &mut []).unwrap();
+    tag.as_ref().try_into().unwrap()
+}
+
+pub fn retry_tag_for(crypto: &CryptoKind, odcid: &[u8], packet_without_tag: &[u8]) -> [u8; 16] {
+    match crypto {
+        CryptoKind::Sim => simcrypto::retry_tag(&ConnectionId::new(odcid), packet_without_tag),
+        CryptoKind::Rustls => real_retry_tag(odcid, packet_without_tag),
+    }
+}
+
+/// Build a Retry packet whose integrity tag is valid for `odcid`
+pub fn build_retry(crypto: &CryptoKind, odcid: &[u8], dcid: &[u8], scid: &[u8], token: &[u8], first: u8) -> Vec<u8> {
+    let mut p = vec![first];
+    p.extend_from_slice(&1u32.to_be_bytes());
+    p.push(dcid.len() as u8);
+    p.extend_from_slice(dcid);
+    p.push(scid.len() as u8);
+    p.extend_from_slice(scid);
+    p.extend_from_slice(token);
+    let tag = retry_tag_for(crypto, odcid, &p);
+    p.extend_from_slice(&tag);
+    p
+}
+
+/// One datagram seen by the link tap
+#[derive(Debug, Clone)]
+pub struct TapRec {
+    pub t: u64,
+    pub id: u64,
+    pub from: SocketAddr,
+    pub to: SocketAddr,
+    pub bytes: Vec<u8>,
+    pub conn: Option<usize>,
+}
+
+pub type Tap = Rc<RefCell<Vec<TapRec>>>;
+
+pub fn tap_record(tap: &Tap, now: u64, f: &InFlight) {
+    tap.borrow_mut().push(TapRec { t: now, id: f.dgram_id, from: f.from, to: f.to, bytes: f.bytes.clone(), conn: f.origin_conn });
+}
+
+pub fn install_tap(w: &mut World) -> Tap {
+    let tap: Tap = Rc::new(RefCell::new(vec![]));
+    let t2 = tap.clone();
+    w.link_hook = Some(Box::new(move |now, _next, f| {
+        tap_record(&t2, now, f);
+        vec![]
+    }));
+    tap
+}
+
+/// Client-side token store that hands out a chosen byte string once and records what it is given
+#[derive(Default)]
+pub struct RecStore {
+    pub give: Mutex<Option<Bytes>>,
+    pub inserted: Mutex<Vec<Vec<u8>>>,
+    pub takes: AtomicU64,
+}
+
+impl TokenStore for RecStore {
+    fn insert(&self, _server_name: &str, token: Bytes) {
+        self.inserted.lock().unwrap().push(token.to_vec());
+    }
+    fn take(&self, _server_name: &str) -> Option<Bytes> {
+        self.takes.fetch_add(1, Ordering::Relaxed);
+        self.give.lock().unwrap().take()
+    }
+}
+
+/// Harness token log: exact set of accepted nonces
+#[derive(Default)]
+pub struct ExactLog(pub Mutex<HashSet<u128>>);
+impl TokenLog for ExactLog {
+    fn check_and_insert(&self, nonce: u128, _issued: SystemTime, _lifetime: Duration) -> Result<(), TokenReuseError> {
+        if self.0.lock().unwrap().insert(nonce) {
+            Ok(())
+        } else {
+            Err(TokenReuseError)
+        }
+    }
+}
+
+/// Wall clock of the server: world time plus a skew the check moves forward (never backward)
+#[derive(Clone)]
+pub struct SkewClock {
+    pub base: SimClock,
+    pub skew: Arc<AtomicU64>,
+}
+pub const EPOCH_S: u64 = 1_700_000_000;
+impl TimeSource for SkewClock {
+    fn now(&self) -> SystemTime {
+        UNIX_EPOCH + Duration::from_secs(EPOCH_S) + Duration::from_micros(self.base.0.load(Ordering::Relaxed) + self.skew.load(Ordering::Relaxed))
+    }
+}
+
+pub fn token_key(ring_key: bool, seed: u64) -> Arc<dyn HandshakeTokenKey> {
+    if ring_key {
+        let mut master = [0u8; 64];
+        for i in 0..8 {
+            master[i * 8..i * 8 + 8].copy_from_slice(&mix(seed, 0x7000 + i as u64).to_le_bytes());
+        }
+        // same construction as quinn's `ServerConfig::with_crypto`
+        Arc::new(ring::hkdf::Salt::new(ring::hkdf::HKDF_SHA256, &[]).extract(&master))
+    } else {
+        Arc::new(SimTokenKey(mix(seed, 0x70)))
+    }
+}
+
+pub fn transport_code(e: &ConnectionError) -> Option<(bool, TransportErrorCode)> {
+    match e {
+        ConnectionError::TransportError(t) => Some((true, t.code)),
+        ConnectionError::ConnectionClosed(c) => Some((false, c.error_code)),
+        _ => None,
+    }
+}
+
+pub fn hex(b: &[u8]) -> String {
+    b.iter().map(|x| format!("{x:02x}")).collect()
+}
+
+/// Violations raised by the world itself (driver contract, application model) are reported with
+/// their own signature plus a C14 suffix
+pub fn world_violation(w: &mut World) -> Option<CaseOut> {
+    w.collect_violations().into_iter().next().map(|v| CaseOut::fail(format!("{}@c14", v.sig), v.msg))
+}
+
+// ---------------------------------------------------------------------------------------------
+// Scenario
+// ---------------------------------------------------------------------------------------------
+
+#[derive(Clone, Debug, Serialize, Deserialize, PartialEq)]
+pub enum LogKind {
+    BloomDefault,
+    /// `BloomTokenLog::new_expected_items(max_bytes, hits)`: converts to the bloom representation early
+    BloomTiny { max_bytes: u16, hits: u8 },
+    Exact,
+    NoneLog,
+}
+
+#[derive(Clone, Debug, Serialize, Deserialize, PartialEq)]
+pub enum Mutn {
+    Genuine,
+    /// flip bit `i % (8 * len)`
+    Flip(u16),
+    /// keep the first `n % len` bytes
+    Truncate(u16),
+    Extend { n: u8, byte: u8 },
+    /// prepend bytes
+    Prefix { n: u8, byte: u8 },
+    /// first `cut % len` bytes of this token, rest from the other token
+    Splice(u16),
+    /// sealed part of this token followed by the nonce (last 16 bytes) of the other one
+    NonceSwap,
+    Empty,
+    /// a token with exactly the same plaintext, sealed under another server's key
+    ForeignKey,
+    Random { len: u8, seed: u16 },
+}
+
+#[derive(Clone, Debug, Serialize, Deserialize, PartialEq)]
+pub enum FromSel {
+    /// the address the token was issued to
+    Issuing,
+    OtherPort,
+    OtherIp,
+    /// IPv4 <-> IPv4-mapped IPv6 form of the issuing address (other IP when it has neither form)
+    Mapped,
+    Pool(u8),
+}
+
+#[derive(Clone, Debug, Serialize, Deserialize, PartialEq)]
+pub enum WhenSel {
+    /// no clock jump
+    Now,
+    /// server clock = floor(issued) + lifetime * f / 65536
+    Frac(u16),
+    /// server clock = floor(issued) + lifetime + delta microseconds
+    Expiry(i32),
+    /// server clock = floor(issued) + lifetime + s seconds
+    Past(u32),
+}
+
+#[derive(Clone, Debug, Serialize, Deserialize, PartialEq)]
+pub struct Pres {
+    /// 0 any, 1 prefer Retry tokens, 2 prefer NEW_TOKEN tokens, 3 prefer tokens of the foreign server
+    pub kind: u8,
+    pub tok: u16,
+    pub other: u16,
+    pub mutn: Mutn,
+    pub from: FromSel,
+    pub when: WhenSel,
+    /// server answers unvalidated Incomings with Retry
+    pub retry_policy: bool,
+    /// presented by a real client (always under rustls); otherwise a crafted Initial
+    pub via_client: bool,
+    /// immediate re-presentations of the same bytes from the same address
+    pub repeat: u8,
+}
+
+#[derive(Clone, Debug, Serialize, Deserialize, PartialEq)]
+pub enum Op {
+    Harvest { from: u8, retry: bool },
+    Present(Pres),
+}
+
+#[derive(Clone, Debug, Serialize, Deserialize, PartialEq)]
+pub struct Accept {
+    pub seed: u64,
+    pub crypto: CryptoKind,
+    /// real HKDF/AES-GCM token key (always with rustls)
+    pub ring_key: bool,
+    pub log: LogKind,
+    pub retry_lifetime_ms: u32,
+    pub vt_lifetime_s: u32,
+    pub tokens_sent: u8,
+    /// initial clock skew (microseconds)
+    pub start_us: u32,
+    pub lat_us: [u32; 2],
+    pub server_cid_len: u8,
+    /// harvest tokens from a second server (other key, same client address, same clock) first
+    pub foreign_world: bool,
+    pub ops: Vec<Op>,
+}
+
+fn arb_mutn() -> impl Strategy<Value = Mutn> {
+    prop_oneof![
+        10 => Just(Mutn::Genuine),
+        5 => any::<u16>().prop_map(Mutn::Flip),
+        2 => any::<u16>().prop_map(Mutn::Truncate),
+        1 => (0u8..20, any::<u8>()).prop_map(|(n, byte)| Mutn::Extend { n, byte }),
+        1 => (0u8..20, any::<u8>()).prop_map(|(n, byte)| Mutn::Prefix { n, byte }),
+        2 => any::<u16>().prop_map(Mutn::Splice),
+        1 => Just(Mutn::NonceSwap),
+        1 => Just(Mutn::Empty),
+        2 => Just(Mutn::ForeignKey),
+        1 => (0u8..120, any::<u16>()).prop_map(|(len, seed)| Mutn::Random { len, seed }),
+    ]
+}
+
+fn arb_when() -> impl Strategy<Value = WhenSel> {
+    prop_oneof![
+        6 => Just(WhenSel::Now),
+        3 => any::<u16>().prop_map(WhenSel::Frac),
+        5 => prop_oneof![Just(-1_000_001i32), Just(-1_000_000), Just(-999_999), Just(-1), Just(0), Just(1), Just(2), Just(999_999), Just(1_000_000), -2_000_000i32..2_000_000]
+            .prop_map(WhenSel::Expiry),
+        1 => prop_oneof![1u32..10, 10u32..100_000].prop_map(WhenSel::Past),
+    ]
+}
+
+fn arb_pres() -> impl Strategy<Value = Pres> {
+    (
+        prop_oneof![3 => Just(0u8), 3 => Just(1u8), 3 => Just(2u8), 1 => Just(3u8)],
+        any::<u16>(),
+        any::<u16>(),
+        arb_mutn(),
+        prop_oneof![8 => Just(FromSel::Issuing), 2 => Just(FromSel::OtherPort), 2 => Just(FromSel::OtherIp), 2 => Just(FromSel::Mapped), 1 => (0u8..6).prop_map(FromSel::Pool)],
+        arb_when(),
+        any::<bool>(),
+        prop::bool::weighted(0.3),
+        prop_oneof![5 => Just(0u8), 2 => Just(1u8), 1 => Just(2u8)],
+    )
+        .prop_map(|(kind, tok, other, mutn, from, when, retry_policy, via_client, repeat)| Pres { kind, tok, other, mutn, from, when, retry_policy, via_client, repeat })
+}
+
+pub fn arb_accept() -> impl Strategy<Value = Accept> {
+    let cfg = (
+        any::<u64>(),
+        prop_oneof![6 => Just(CryptoKind::Sim), 1 => Just(CryptoKind::Rustls)],
+        any::<bool>(),
+        prop_oneof![
+            2 => Just(LogKind::BloomDefault),
+            2 => (0u16..200, 1u8..50).prop_map(|(max_bytes, hits)| LogKind::BloomTiny { max_bytes, hits }),
+            4 => Just(LogKind::Exact),
+            1 => Just(LogKind::NoneLog),
+        ],
+        prop_oneof![Just(1_000u32), Just(1_500), Just(2_000), Just(15_000), Just(60_000), Just(3_600_000), Just(86_400_000), Just(1_209_600_000), 1_000u32..100_000],
+        prop_oneof![Just(1u32), Just(2), Just(10), Just(60), Just(3_600), Just(86_400), Just(1_209_600), Just(2_592_000), 1u32..100_000],
+        1u8..=3,
+        0u32..3_000_000,
+        (500u32..10_000, 500u32..10_000),
+        prop_oneof![3 => Just(8u8), 1 => 4u8..=20],
+        prop::bool::weighted(0.25),
+    );
+    let ops = (
+        (0u8..6, any::<bool>()),
+        prop::collection::vec(
+            prop_oneof![
+                1 => (0u8..6, any::<bool>()).prop_map(|(from, retry)| Op::Harvest { from, retry }),
+                7 => arb_pres().prop_map(Op::Present),
+            ],
+            3..22,
+        ),
+    );
+    (cfg, ops).prop_map(|((seed, crypto, ring_key, log, retry_lifetime_ms, vt_lifetime_s, tokens_sent, start_us, (l0, l1), server_cid_len, foreign_world), ((from, retry), mut rest))| {
+        let mut ops = vec![Op::Harvest { from, retry }];
+        // make sure both token kinds exist early on
+        if !retry {
+            ops.push(Op::Harvest { from, retry: true });
+        }
+        ops.append(&mut rest);
+        let ring_key = ring_key || crypto == CryptoKind::Rustls;
+        Accept { seed, crypto, ring_key, log, retry_lifetime_ms, vt_lifetime_s, tokens_sent, start_us, lat_us: [l0, l1], server_cid_len, foreign_world, ops }
+    })
+}
+
+// ---------------------------------------------------------------------------------------------
+// Reference model state
+// ---------------------------------------------------------------------------------------------
+
+#[derive(Clone, Copy, Debug, PartialEq)]
+enum TokKind {
+    Retry,
+    Validation,
+}
+
+/// A byte string some server issued, with the bindings the harness recorded when it was issued
+#[derive(Clone, Debug)]
+struct Tok {
+    bytes: Vec<u8>,
+    kind: TokKind,
+    /// address the token was issued to (for NEW_TOKEN tokens only the IP matters)
+    addr: SocketAddr,
+    /// Retry tokens: destination CID of the Initial that was answered with the Retry
+    odcid: Vec<u8>,
+    /// server clock at issue time, microseconds after EPOCH_S
+    issued_us: u64,
+    /// the server has reported an address as validated by this token (NEW_TOKEN tokens)
+    accepted: bool,
+    /// issued by the other server (other key): unknown to the server under test
+    foreign: bool,
+}
+
+pub fn pool_addr(i: u8) -> SocketAddr {
+    match i % 6 {
+        0 => addr_v6(1, 5000),
+        1 => addr_v6(1, 5001),
+        2 => addr_v6(3, 5000),
+        3 => SocketAddr::new(IpAddr::V4(Ipv4Addr::new(10, 0, 0, 7)), 5000),
+        4 => SocketAddr::new(IpAddr::V6(Ipv4Addr::new(10, 0, 0, 7).to_ipv6_mapped()), 5000),
+        _ => SocketAddr::new(IpAddr::V4(Ipv4Addr::new(10, 0, 0, 8)), 6000),
+    }
+}
+
+fn other_ip(a: SocketAddr) -> SocketAddr {
+    let ip = match a.ip() {
+        IpAddr::V4(v) => {
+            let mut o = v.octets();
+            o[3] ^= 0x10;
+            IpAddr::V4(Ipv4Addr::from(o))
+        }
+        IpAddr::V6(v) => {
+            let mut s = v.segments();
+            s[7] ^= 0x10;
+            IpAddr::V6(Ipv6Addr::from(s))
+        }
+    };
+    SocketAddr::new(ip, a.port())
+}
+
+fn mapped_variant(a: SocketAddr) -> SocketAddr {
+    match a.ip() {
+        IpAddr::V4(v) => SocketAddr::new(IpAddr::V6(v.to_ipv6_mapped()), a.port()),
+        IpAddr::V6(v) => match v.to_ipv4_mapped() {
+            Some(v4) => SocketAddr::new(IpAddr::V4(v4), a.port()),
+            None => other_ip(a),
+        },
+    }
+}
+
+#[derive(Default, Clone, Debug)]
+struct Tally {
+    presentations: u64,
+    genuine_ok: u64,
+    one_binding: u64,
+    flips: u64,
+    invalid_token: u64,
+    bloom_fp: u64,
+    bloom_ok: u64,
+    via_client: u64,
+    handshakes_completed_after_altered: u64,
+    labels: Vec<&'static str>,
+}
+
+impl Tally {
+    fn label(&mut self, l: &'static str) {
+        if !self.labels.contains(&l) {
+            self.labels.push(l);
+        }
+    }
+}
+
+/// Aggregated positive-control counters of a sub-check run
+#[derive(Default)]
+pub struct AcceptStats {
+    pub presentations: AtomicU64,
+    pub genuine_ok: AtomicU64,
+    pub one_binding: AtomicU64,
+    pub flips: AtomicU64,
+    pub invalid_token: AtomicU64,
+    pub bloom_ok: AtomicU64,
+    pub bloom_fp: AtomicU64,
+    pub via_client: AtomicU64,
+    pub altered_connected: AtomicU64,
+}
+
+struct Ctx<'a> {
+    a: &'a Accept,
+    w: World,
+    tap: Tap,
+    skew: Arc<AtomicU64>,
+    key: Arc<dyn HandshakeTokenKey>,
+    foreign_key: Arc<dyn HandshakeTokenKey>,
+    reg: Vec<Tok>,
+    injected: BTreeMap<u64, Vec<u8>>,
+    trace_pos: usize,
+    tap_pos: usize,
+    craft_ctr: u64,
+    sim: bool,
+    tally: Tally,
+    /// (store, client address) of client phases whose NEW_TOKEN tokens are not registered yet (rustls)
+    pending_stores: Vec<(Arc<RecStore>, SocketAddr, usize)>,
+}
+
+type Fail = (String, String);
+
+/// What the model expects for one first-flight Initial
+#[derive(Debug, Clone, PartialEq)]
+enum Exp {
+    /// like no token: Incoming, not validated, Retry allowed, original DCID = header DCID
+    Absent { why: &'static str },
+    /// genuine Retry token in place: validated, no further Retry, original DCID from the registry
+    RetryOk { odcid: Vec<u8> },
+    /// genuine Retry token, stale or from another address: INVALID_TOKEN close, no Incoming
+    InvalidToken { why: &'static str },
+    /// genuine NEW_TOKEN token with every binding intact (index into the registry)
+    ValOk { idx: usize },
+}
+
+fn build_world(a: &Accept, key: Arc<dyn HandshakeTokenKey>, skew: Arc<AtomicU64>) -> (World, Tap) {
+    let mut net = NetSpec::default();
+    net.seed = a.seed;
+    net.crypto = a.crypto.clone();
+    net.latency_us = a.lat_us;
+    net.server_ep.cid_len = a.server_cid_len.clamp(4, 20);
+    net.srv.tokens_sent = a.tokens_sent;
+    net.srv.retry_token_lifetime_ms = a.retry_lifetime_ms;
+    net.client_tc.mtud = None;
+    net.server_tc.mtud = None;
+    let mut w = World::new(net);
+    w.check_amp = false;
+    let log: Arc<dyn TokenLog> = match &a.log {
+        LogKind::BloomDefault => Arc::new(BloomTokenLog::default()),
+        LogKind::BloomTiny { max_bytes, hits } => Arc::new(BloomTokenLog::new_expected_items(*max_bytes as usize, *hits as u64)),
+        LogKind::Exact => Arc::new(ExactLog::default()),
+        LogKind::NoneLog => Arc::new(NoneTokenLog),
+    };
+    let clock = SkewClock { base: w.clock.clone(), skew };
+    let (sent, life) = (a.tokens_sent as u32, a.vt_lifetime_s as u64);
+    w.server_cfg_hook = Some(Rc::new(move |sc: &mut ServerConfig| {
+        sc.token_key(key.clone());
+        sc.time_source(Arc::new(clock.clone()));
+        let mut vt = ValidationTokenConfig::default();
+        vt.sent(sent);
+        vt.lifetime(Duration::from_secs(life));
+        vt.log(log.clone());
+        sc.validation_token_config(vt);
+    }));
+    w.reconfigure_server();
+    let tap = install_tap(&mut w);
+    (w, tap)
+}
+
+fn ep_for(w: &mut World, addr: SocketAddr) -> usize {
+    match w.eps.iter().position(|e| !e.is_server && e.addrs.contains(&addr)) {
+        Some(i) => i,
+        None => w.add_endpoint(false, vec![addr]),
+    }
+}
+
+impl<'a> Ctx<'a> {
+    fn new(a: &'a Accept) -> Self {
+        let skew = Arc::new(AtomicU64::new(a.start_us as u64));
+        let key = token_key(a.ring_key, a.seed);
+        let foreign_key = token_key(a.ring_key, a.seed ^ 0x5eed_f00d);
+        let (w, tap) = build_world(a, key.clone(), skew.clone());
+        Self {
+            a,
+            w,
+            tap,
+            skew,
+            key,
+            foreign_key,
+            reg: vec![],
+            injected: BTreeMap::new(),
+            trace_pos: 0,
+            tap_pos: 0,
+            craft_ctr: 0,
+            sim: a.crypto == CryptoKind::Sim,
+            tally: Tally::default(),
+            pending_stores: vec![],
+        }
+    }
+
+    fn retry_lifetime_us(&self) -> u64 {
+        self.a.retry_lifetime_ms as u64 * 1000
+    }
+    fn vt_lifetime_us(&self) -> u64 {
+        self.a.vt_lifetime_s as u64 * 1_000_000
+    }
+    /// last clock value (microseconds after EPOCH_S) at which the token is within its lifetime:
+    /// the encoding keeps whole seconds only
+    fn expiry_us(&self, t: &Tok) -> u64 {
+        let floor = t.issued_us - t.issued_us % 1_000_000;
+        floor + match t.kind {
+            TokKind::Retry => self.retry_lifetime_us(),
+            TokKind::Validation => self.vt_lifetime_us(),
+        }
+    }
+
+    fn phase_len(&self) -> u64 {
+        let rtt = (self.a.lat_us[0] + self.a.lat_us[1]) as u64;
+        8 * rtt + 60_000
+    }
+
+    fn bytes_of(&self, id: u64) -> Option<Vec<u8>> {
+        if let Some(b) = self.injected.get(&id) {
+            return Some(b.clone());
+        }
+        let tap = self.tap.borrow();
+        // ids are increasing in the tap
+        tap.binary_search_by_key(&id, |r| r.id).ok().map(|i| tap[i].bytes.clone())
+    }
+
+    /// Model verdict for an Initial carrying `token`, sent from `from` to DCID `dcid`, processed when
+    /// the server clock shows `clock` (microseconds after EPOCH_S)
+    fn expect(&self, token: &[u8], from: SocketAddr, clock: u64) -> Exp {
+        if token.is_empty() {
+            return Exp::Absent { why: "no token" };
+        }
+        let Some(idx) = self.reg.iter().position(|k| !k.foreign && k.bytes == token) else {
+            return Exp::Absent { why: "not a token this server issued" };
+        };
+        let k = &self.reg[idx];
+        let fresh = clock <= self.expiry_us(k);
+        match k.kind {
+            TokKind::Retry => {
+                if from != k.addr {
+                    Exp::InvalidToken { why: if fresh { "retry token from another address" } else { "retry token from another address and stale" } }
+                } else if !fresh {
+                    Exp::InvalidToken { why: "stale retry token" }
+                } else {
+                    Exp::RetryOk { odcid: k.odcid.clone() }
+                }
+            }
+            TokKind::Validation => {
+                if from.ip() != k.addr.ip() {
+                    Exp::Absent { why: "NEW_TOKEN token from another IP" }
+                } else if !fresh {
+                    Exp::Absent { why: "stale NEW_TOKEN token" }
+                } else if k.accepted {
+                    Exp::Absent { why: "NEW_TOKEN token already accepted" }
+                } else {
+                    Exp::ValOk { idx }
+                }
+            }
+        }
+    }
+
+    /// Number of bindings (address, time, reuse) a registered token violates in this presentation
+    fn violated_bindings(&self, idx: usize, from: SocketAddr, clock: u64) -> u32 {
+        let k = &self.reg[idx];
+        let mut n = 0;
+        let addr_ok = match k.kind {
+            TokKind::Retry => from == k.addr,
+            TokKind::Validation => from.ip() == k.addr.ip(),
+        };
+        if !addr_ok {
+            n += 1;
+        }
+        if clock > self.expiry_us(k) {
+            n += 1;
+        }
+        if k.accepted {
+            n += 1;
+        }
+        n
+    }
+
+    /// Walk the trace records added since the last call: evaluate every first-flight Initial the
+    /// server saw against the model, register the Retry tokens it issued. Returns the expectation
+    /// of each evaluated Initial, in order.
+    fn evaluate(&mut self) -> Result<Vec<(u64, Exp)>, Fail> {
+        let skew = self.skew.load(Ordering::Relaxed);
+        #[derive(Clone)]
+        struct Ev {
+            t: u64,
+            from: SocketAddr,
+            id: u64,
+            routed: Routed,
+            /// frames of the stateless response emitted while handling it (sim), its size
+            resp: Option<(Option<Vec<OF>>, usize)>,
+        }
+        let mut evs: Vec<Ev> = vec![];
+        let mut last_resp: Option<(u64, Option<Vec<OF>>, usize)> = None;
+        for r in &self.w.trace[self.trace_pos..] {
+            match r {
+                Rec::TxEp { t, ep, dgram, size, inciting_size, .. } if *ep == SERVER_EP && *inciting_size > 0 => {
+                    last_resp = Some((*t, dgram.pkts.first().and_then(|p| p.frames.clone()), *size));
+                }
+                Rec::Rx { t, ep, from, dgram_id, routed, .. } if *ep == SERVER_EP => {
+                    let resp = match (routed, &last_resp) {
+                        (Routed::Response(_), Some((rt, f, s))) if rt == t => Some((f.clone(), *s)),
+                        _ => None,
+                    };
+                    last_resp = None;
+                    evs.push(Ev { t: *t, from: *from, id: *dgram_id, routed: routed.clone(), resp });
+                }
+                _ => {}
+            }
+        }
+        self.trace_pos = self.w.trace.len();
+        let mut out = vec![];
+        for ev in evs {
+            if matches!(ev.routed, Routed::Conn(_) | Routed::NoEndpoint) {
+                continue;
+            }
+            let Some(bytes) = self.bytes_of(ev.id) else { continue };
+            let Some(h) = parse_long(&bytes) else { continue };
+            if h.ty != wire::PktType::Initial || bytes.len() < 1200 {
+                continue;
+            }
+            let clock = ev.t + skew;
+            let exp = self.expect(&h.token, ev.from, clock);
+            let ctx = |s: &Ctx| {
+                format!(
+                    "Initial from {} at server clock {}.{:06} s, DCID {}, token ({} bytes) {} -- model: {:?}",
+                    ev.from,
+                    clock / 1_000_000,
+                    clock % 1_000_000,
+                    hex(&h.dcid),
+                    h.token.len(),
+                    s.describe(&h.token),
+                    exp
+                )
+            };
+            match &ev.routed {
+                Routed::NewIncoming => {
+                    let Some(inc) = self.w.incoming_log.iter().rev().find(|i| i.dgram_id == ev.id).cloned() else {
+                        return Err(("c14/harness".into(), "Incoming without log record".into()));
+                    };
+                    match &exp {
+                        Exp::Absent { why } => {
+                            if inc.validated {
+                                let sig = match *why {
+                                    "NEW_TOKEN token from another IP" => "c14/moved-token-validated",
+                                    "stale NEW_TOKEN token" => "c14/stale-token-validated",
+                                    "NEW_TOKEN token already accepted" => "c14/replayed-token-validated",
+                                    _ => "c14/forged-token-validated",
+                                };
+                                return Err((sig.into(), format!("remote_address_validated() == true although: {why}. {}", ctx(self))));
+                            }
+                            if !inc.may_retry || inc.odcid != h.dcid {
+                                return Err((
+                                    "c14/altered-token-not-absent".into(),
+                                    format!("token must be treated as absent ({why}) but may_retry() == {} and orig_dst_cid() == {} . {}", inc.may_retry, hex(&inc.odcid), ctx(self)),
+                                ));
+                            }
+                        }
+                        Exp::InvalidToken { why } => {
+                            let sig = if inc.validated {
+                                if why.contains("stale") && !why.contains("address") {
+                                    "c14/stale-token-validated"
+                                } else {
+                                    "c14/moved-token-validated"
+                                }
+                            } else {
+                                "c14/retry-token-misuse-not-invalid-token"
+                            };
+                            return Err((sig.into(), format!("{why}: the attempt must end with INVALID_TOKEN, but an Incoming was produced (validated == {}, may_retry == {}). {}", inc.validated, inc.may_retry, ctx(self))));
+                        }
+                        Exp::RetryOk { odcid } => {
+                            if !inc.validated || inc.may_retry {
+                                return Err((
+                                    "c14/genuine-token-rejected".into(),
+                                    format!("genuine fresh Retry token from the address it was issued to: validated == {}, may_retry == {}. {}", inc.validated, inc.may_retry, ctx(self)),
+                                ));
+                            }
+                            if &inc.odcid != odcid {
+                                return Err(("c14/odcid-mismatch".into(), format!("orig_dst_cid() == {} but the Retry answered an Initial to {}. {}", hex(&inc.odcid), hex(odcid), ctx(self))));
+                            }
+                            self.tally.genuine_ok += 1;
+                        }
+                        Exp::ValOk { idx } => {
+                            if !inc.may_retry || inc.odcid != h.dcid {
+                                return Err((
+                                    "c14/altered-token-not-absent".into(),
+                                    format!("NEW_TOKEN token: may_retry() == {} and orig_dst_cid() == {}. {}", inc.may_retry, hex(&inc.odcid), ctx(self)),
+                                ));
+                            }
+                            match (&self.a.log, inc.validated) {
+                                (LogKind::NoneLog, true) => {
+                                    return Err(("c14/replayed-token-validated".into(), format!("NoneTokenLog never accepts a token, yet validated == true. {}", ctx(self))));
+                                }
+                                (LogKind::Exact, false) => {
+                                    return Err((
+                                        "c14/genuine-token-rejected".into(),
+                                        format!("genuine fresh first-use NEW_TOKEN token from the IP it was issued to was not accepted (exact-set token log). {}", ctx(self)),
+                                    ));
+                                }
+                                (LogKind::BloomDefault | LogKind::BloomTiny { .. }, false) => self.tally.bloom_fp += 1,
+                                (LogKind::BloomDefault | LogKind::BloomTiny { .. }, true) => self.tally.bloom_ok += 1,
+                                _ => {}
+                            }
+                            if inc.validated {
+                                self.reg[*idx].accepted = true;
+                                self.tally.genuine_ok += 1;
+                            }
+                        }
+                    }
+                    if inc.action == "retry" {
+                        // the Retry the server sent in answer: register its token
+                        let tok = {
+                            let tap = self.tap.borrow();
+                            tap.iter()
+                                .filter(|r| r.id > ev.id && r.t == ev.t && r.to == ev.from && r.conn.is_none())
+                                .filter_map(|r| parse_long(&r.bytes))
+                                .find(|p| p.ty == wire::PktType::Retry && p.dcid == h.scid)
+                                .map(|p| p.token)
+                        };
+                        let Some(tok) = tok else {
+                            return Err(("c14/harness".into(), "Retry decided but no Retry packet on the link".into()));
+                        };
+                        self.register(Tok { bytes: tok, kind: TokKind::Retry, addr: ev.from, odcid: h.dcid.clone(), issued_us: clock, accepted: false, foreign: false })?;
+                    }
+                }
+                Routed::Response(_) => {
+                    let is_invalid_token = match &ev.resp {
+                        Some((Some(frames), _)) => Some(frames.iter().any(|f| matches!(f, OF::ConnectionClose { code: 0x0b, .. }))),
+                        _ => None,
+                    };
+                    match &exp {
+                        Exp::InvalidToken { .. } => {
+                            if is_invalid_token == Some(false) {
+                                return Err(("c14/retry-token-misuse-not-invalid-token".into(), format!("stateless response is not an Initial CONNECTION_CLOSE INVALID_TOKEN: {:?}. {}", ev.resp, ctx(self))));
+                            }
+                            self.tally.invalid_token += 1;
+                        }
+                        Exp::RetryOk { .. } => {
+                            return Err((
+                                "c14/genuine-token-rejected".into(),
+                                format!("genuine fresh Retry token from the address it was issued to was answered statelessly ({:?}). {}", ev.resp, ctx(self)),
+                            ));
+                        }
+                        _ => {
+                            return Err((
+                                "c14/altered-token-not-absent".into(),
+                                format!("the server answered statelessly ({:?}) instead of producing an Incoming. {}", ev.resp, ctx(self)),
+                            ));
+                        }
+                    }
+                }
+                _ => {
+                    return Err(("c14/altered-token-not-absent".into(), format!("the server ignored the datagram (no Incoming, no response). {}", ctx(self))));
+                }
+            }
+            out.push((ev.id, exp));
+        }
+        Ok(out)
+    }
+
+    fn describe(&self, token: &[u8]) -> String {
+        match self.reg.iter().position(|k| k.bytes == token) {
+            Some(i) => {
+                let k = &self.reg[i];
+                format!(
+                    "= registry #{i} ({:?}{} issued to {} at {}.{:06} s, accepted {})",
+                    k.kind,
+                    if k.foreign { ", FOREIGN server" } else { "" },
+                    k.addr,
+                    k.issued_us / 1_000_000,
+                    k.issued_us % 1_000_000,
+                    k.accepted
+                )
+            }
+            None => format!("{} (not issued by any server)", hex(&token[..token.len().min(24)])),
+        }
+    }
+
+    /// Add an issued token to the registry, cross-checking the harness' record of its bindings with
+    /// the token plaintext (verif hook) - a disagreement means the harness model of issue time /
+    /// address is wrong, not that quinn is
+    fn register(&mut self, t: Tok) -> Result<(), Fail> {
+        if self.reg.iter().any(|k| k.bytes == t.bytes) {
+            return Ok(());
+        }
+        let key = if t.foreign { &self.foreign_key } else { &self.key };
+        let secs = |st: SystemTime| st.duration_since(UNIX_EPOCH).map(|d| d.as_secs()).unwrap_or(0);
+        match (token_decode(&**key, &t.bytes), t.kind) {
+            (Some((_, VTokenPayload::Retry { address, orig_dst_cid, issued })), TokKind::Retry) => {
+                if address != t.addr || orig_dst_cid[..] != t.odcid[..] || secs(issued) != EPOCH_S + t.issued_us / 1_000_000 {
+                    return Err(("c14/harness-registry".into(), format!("registry {t:?} disagrees with token plaintext {address} {orig_dst_cid} {issued:?}")));
+                }
+            }
+            (Some((_, VTokenPayload::Validation { ip, issued })), TokKind::Validation) => {
+                if ip != t.addr.ip() || secs(issued) != EPOCH_S + t.issued_us / 1_000_000 {
+                    return Err(("c14/harness-registry".into(), format!("registry {t:?} disagrees with token plaintext {ip} {issued:?}")));
+                }
+            }
+            (d, _) => {
+                return Err(("c14/harness-registry".into(), format!("registry {t:?}: token does not decode as its kind under the issuing key: {d:?}")));
+            }
+        }
+        self.reg.push(t);
+        Ok(())
+    }
+
+    /// Register the NEW_TOKEN tokens issued since the last call
+    fn register_new_tokens(&mut self, foreign: bool) -> Result<(), Fail> {
+        let skew = self.skew.load(Ordering::Relaxed);
+        if self.sim {
+            let recs: Vec<TapRec> = self.tap.borrow()[self.tap_pos..].iter().filter(|r| r.conn.is_some_and(|k| self.w.conns[k].side.is_server())).cloned().collect();
+            for r in recs {
+                let ccl = self.w.spec.client_ep.cid_len as usize;
+                for p in wire::decode_datagram(&r.bytes, ccl).into_iter().flatten() {
+                    if p.ty.space().is_none() {
+                        continue;
+                    }
+                    for f in wire::decode_frames(&p.payload).unwrap_or_default() {
+                        if let wire::Frame::NewToken { token } = f {
+                            self.register(Tok { bytes: token, kind: TokKind::Validation, addr: r.to, odcid: vec![], issued_us: r.t + skew, accepted: false, foreign })?;
+                        }
+                    }
+                }
+            }
+            self.pending_stores.clear();
+        } else {
+            // frames are not observable: take the tokens from the clients' stores; the issue time is
+            // read from the token plaintext through the verif hook
+            let pend = std::mem::take(&mut self.pending_stores);
+            for (store, addr, _k) in pend {
+                let toks = store.inserted.lock().unwrap().clone();
+                for tok in toks {
+                    let key = if foreign { &self.foreign_key } else { &self.key };
+                    let Some((_, VTokenPayload::Validation { issued, .. })) = token_decode(&**key, &tok) else {
+                        return Err(("c14/harness-registry".into(), format!("NEW_TOKEN token {} received by a client does not decode under the server key", hex(&tok))));
+                    };
+                    let s = issued.duration_since(UNIX_EPOCH).unwrap().as_secs().saturating_sub(EPOCH_S);
+                    self.register(Tok { bytes: tok, kind: TokKind::Validation, addr, odcid: vec![], issued_us: s * 1_000_000, accepted: false, foreign })?;
+                }
+            }
+        }
+        self.tap_pos = self.tap.borrow().len();
+        Ok(())
+    }
+
+    fn run_phase(&mut self) -> Result<(), CaseOut> {
+        let until = self.w.now + self.phase_len();
+        self.w.run(until, |_| false);
+        if self.w.hit_step_limit {
+            return Err(CaseOut::inconclusive("step limit"));
+        }
+        if let Some(c) = world_violation(&mut self.w) {
+            return Err(c);
+        }
+        if self.w.now < until {
+            self.w.now = until;
+            self.w.clock.0.store(until, Ordering::Relaxed);
+        }
+        Ok(())
+    }
+
+    /// One real client connecting from `addr`, its token store handing out `token`
+    fn client_phase(&mut self, addr: SocketAddr, token: &[u8], retry_policy: bool) -> Result<(usize, Vec<(u64, Exp)>, usize), CaseOut> {
+        let ep = ep_for(&mut self.w, addr);
+        let store = Arc::new(RecStore::default());
+        if !token.is_empty() {
+            *store.give.lock().unwrap() = Some(Bytes::copy_from_slice(token));
+        }
+        self.w.client_token_store = Some(store.clone());
+        self.w.spec.srv.retry = retry_policy;
+        self.w.incoming_ignore = false;
+        let server_conns_before = self.w.conns.iter().filter(|c| c.side.is_server()).count();
+        let k = match self.w.connect(ep, ConnLoad { client: SideLoad::default(), server: SideLoad::default() }) {
+            Ok(k) => k,
+            Err(e) => return Err(CaseOut::inconclusive(format!("connect failed: {e:?}"))),
+        };
+        self.pending_stores.push((store, addr, k));
+        self.run_phase()?;
+        let exps = self.evaluate().map_err(|(s, m)| fail_or_inconclusive(s, m))?;
+        Ok((k, exps, server_conns_before))
+    }
+
+    fn harvest(&mut self, from: u8, retry: bool) -> Result<(), CaseOut> {
+        let addr = pool_addr(from);
+        let (k, exps, _) = self.client_phase(addr, &[], retry)?;
+        // whole-second token timestamps: a Retry token with a lifetime of about a second can expire
+        // while the client's answer is in flight (the model predicts the INVALID_TOKEN close)
+        let expired_in_flight = exps.iter().skip(1).any(|e| matches!(e.1, Exp::InvalidToken { .. }));
+        if expired_in_flight {
+            self.tally.label("fresh-retry-token-expired-in-flight");
+        }
+        if !self.w.conns[k].app.connected && !expired_in_flight {
+            return Err(CaseOut::fail(
+                "c14/handshake-failed",
+                format!("plain handshake (no token, retry policy {retry}) from {addr} did not complete: {:?}", self.w.conns[k].app.lost),
+            ));
+        }
+        self.register_new_tokens(false).map_err(|(s, m)| fail_or_inconclusive(s, m))?;
+        Ok(())
+    }
+
+    fn craft_initial(&mut self, token: &[u8]) -> Vec<u8> {
+        self.craft_ctr += 1;
+        let ctr = self.craft_ctr;
+        self.craft_initial_with(ctr, token, None)
+    }
+
+    /// Initial whose CIDs are a function of `ctr`; `dcid_len` overrides the default 8..20 bytes
+    fn craft_initial_with(&self, ctr: u64, token: &[u8], dcid_len: Option<usize>) -> Vec<u8> {
+        let s = mix(self.a.seed ^ 0xc4af7, ctr);
+        let a = mix(s, 1);
+        let b = mix(s, 2);
+        let c = mix(s, 3);
+        let mut dcid = a.to_le_bytes().to_vec();
+        dcid.extend_from_slice(&b.to_le_bytes());
+        dcid.extend_from_slice(&c.to_le_bytes()[..4]);
+        dcid.truncate(dcid_len.unwrap_or(8 + (s % 13) as usize));
+        let scid = mix(s, 4).to_le_bytes();
+        let payload = wire::encode_frames(&[wire::Frame::Crypto { offset: 0, data: vec![1, 0, 0, 9, 0, 0, 0, 0, 0, 0, 0, 0, 0] }]);
+        let key = simcrypto::level_key(simcrypto::conn_key(&ConnectionId::new(&dcid)), 0, Side::Client);
+        let mut out = Vec::new();
+        wire::build_packet(
+            &wire::BuildPkt { ty: wire::PktType::Initial, version: 1, dcid: &dcid, scid: &scid, token, pn: 0, pn_len: 1, key_phase: false, payload: &payload, key, min_len: 1200, first_byte_xor: 0 },
+            &mut out,
+        );
+        out
+    }
+
+    fn crafted_phase(&mut self, addr: SocketAddr, token: &[u8]) -> Result<Vec<(u64, Exp)>, CaseOut> {
+        let bytes = self.craft_initial(token);
+        self.w.incoming_ignore = true;
+        let server = self.w.eps[SERVER_EP].addrs[0];
+        let at = self.w.now + self.a.lat_us[0] as u64;
+        let id = self.w.inject(at, server, addr, bytes.clone());
+        self.injected.insert(id, bytes);
+        self.w.run(at + 1, |_| false);
+        self.w.incoming_ignore = false;
+        if self.w.hit_step_limit {
+            return Err(CaseOut::inconclusive("step limit"));
+        }
+        if let Some(c) = world_violation(&mut self.w) {
+            return Err(c);
+        }
+        self.evaluate().map_err(|(s, m)| fail_or_inconclusive(s, m))
+    }
+
+    /// Apply the mutation; returns the byte string to present
+    fn mutate(&self, base: Option<&Tok>, other: Option<&Tok>, m: &Mutn) -> Vec<u8> {
+        let g = base.map(|t| t.bytes.clone()).unwrap_or_default();
+        let h = other.map(|t| t.bytes.clone()).unwrap_or_default();
+        match m {
+            Mutn::Genuine => g,
+            Mutn::Flip(i) => {
+                let mut v = g;
+                if !v.is_empty() {
+                    let bit = *i as usize % (8 * v.len());
+                    v[bit / 8] ^= 1 << (bit % 8);
+                }
+                v
+            }
+            Mutn::Truncate(n) => {
+                let mut v = g;
+                if !v.is_empty() {
+                    let keep = *n as usize % v.len();
+                    v.truncate(keep);
+                }
+                v
+            }
+            Mutn::Extend { n, byte } => {
+                let mut v = g;
+                v.extend(std::iter::repeat(*byte).take(*n as usize + 1));
+                v
+            }
+            Mutn::Prefix { n, byte } => {
+                let mut v = vec![*byte; *n as usize + 1];
+                v.extend_from_slice(&g);
+                v
+            }
+            Mutn::Splice(cut) => {
+                if g.is_empty() {
+                    return h;
+                }
+                let c = *cut as usize % g.len();
+                let mut v = g[..c].to_vec();
+                if h.len() > c {
+                    v.extend_from_slice(&h[c..]);
+                }
+                v
+            }
+            Mutn::NonceSwap => {
+                if g.len() < 16 || h.len() < 16 {
+                    return g;
+                }
+                let mut v = g[..g.len() - 16].to_vec();
+                v.extend_from_slice(&h[h.len() - 16..]);
+                v
+            }
+            Mutn::Empty => vec![],
+            Mutn::ForeignKey => match base {
+                Some(t) => {
+                    let issued = UNIX_EPOCH + Duration::from_secs(EPOCH_S + t.issued_us / 1_000_000);
+                    let p = match t.kind {
+                        TokKind::Retry => VTokenPayload::Retry { address: t.addr, orig_dst_cid: ConnectionId::new(&t.odcid), issued },
+                        TokKind::Validation => VTokenPayload::Validation { ip: t.addr.ip(), issued },
+                    };
+                    let nonce = (mix(self.a.seed, t.issued_us) as u128) << 64 | mix(self.a.seed, t.bytes.len() as u64 + self.craft_ctr) as u128;
+                    token_encode(&*self.foreign_key, nonce, &p)
+                }
+                None => vec![],
+            },
+            Mutn::Random { len, seed } => {
+                let mut s = mix(self.a.seed, *seed as u64);
+                (0..*len).map(|_| {
+                    s = mix(s, 7);
+                    s as u8
+                })
+                .collect()
+            }
+        }
+    }
+
+    fn present(&mut self, p: &Pres) -> Result<(), CaseOut> {
+        // ---- select
+        let cand: Vec<usize> = {
+            let pref: Vec<usize> = (0..self.reg.len())
+                .filter(|&i| match p.kind {
+                    1 => self.reg[i].kind == TokKind::Retry && !self.reg[i].foreign,
+                    2 => self.reg[i].kind == TokKind::Validation && !self.reg[i].foreign,
+                    3 => self.reg[i].foreign,
+                    _ => true,
+                })
+                .collect();
+            if pref.is_empty() {
+                (0..self.reg.len()).collect()
+            } else {
+                pref
+            }
+        };
+        let base = if cand.is_empty() { None } else { Some(self.reg[cand[p.tok as usize % cand.len()]].clone()) };
+        let other = if self.reg.is_empty() { None } else { Some(self.reg[p.other as usize % self.reg.len()].clone()) };
+        let bytes = self.mutate(base.as_ref(), other.as_ref(), &p.mutn);
+        let issuing = base.as_ref().map(|t| t.addr).unwrap_or(pool_addr(0));
+        let from = match &p.from {
+            FromSel::Issuing => issuing,
+            FromSel::OtherPort => SocketAddr::new(issuing.ip(), issuing.port() ^ 1),
+            FromSel::OtherIp => other_ip(issuing),
+            FromSel::Mapped => mapped_variant(issuing),
+            FromSel::Pool(i) => pool_addr(*i),
+        };
+        // ---- clock: the first Initial reaches the server one client->server latency from now
+        let td = self.w.now + self.a.lat_us[0] as u64;
+        let skew = self.skew.load(Ordering::Relaxed);
+        let cur = td + skew;
+        let target = match (&p.when, &base) {
+            (WhenSel::Now, _) | (_, None) => cur,
+            (w, Some(t)) => {
+                let exp = self.expiry_us(t);
+                let life = exp - (t.issued_us - t.issued_us % 1_000_000);
+                match w {
+                    WhenSel::Frac(f) => exp - life + (life as u128 * *f as u128 / 65536) as u64,
+                    WhenSel::Expiry(d) => (exp as i128 + *d as i128).max(0) as u64,
+                    WhenSel::Past(s) => exp + *s as u64 * 1_000_000,
+                    WhenSel::Now => cur,
+                }
+            }
+        };
+        if target > cur {
+            self.skew.store(skew + (target - cur), Ordering::Relaxed);
+            self.tally.label("clock-jump");
+        }
+        let via_client = p.via_client || !self.sim;
+        for rep in 0..=p.repeat {
+            let clock = self.w.now + self.a.lat_us[0] as u64 + self.skew.load(Ordering::Relaxed);
+            // ---- classification for coverage
+            let reg_idx = self.reg.iter().position(|k| !k.foreign && k.bytes == bytes);
+            let mut nontrivial = false;
+            if let Some(i) = reg_idx {
+                match self.violated_bindings(i, from, clock) {
+                    0 => self.tally.label("genuine-all-bindings-ok"),
+                    1 => {
+                        nontrivial = true;
+                        let k = &self.reg[i];
+                        let addr_ok = if k.kind == TokKind::Retry { from == k.addr } else { from.ip() == k.addr.ip() };
+                        self.tally.label(if !addr_ok {
+                            "only-address-violated"
+                        } else if clock > self.expiry_us(k) {
+                            "only-lifetime-violated"
+                        } else {
+                            "only-reuse-violated"
+                        });
+                        if clock == self.expiry_us(k) + 1 {
+                            self.tally.label("one-microsecond-past-expiry");
+                        }
+                    }
+                    _ => self.tally.label("several-bindings-violated"),
+                }
+                if clock == self.expiry_us(&self.reg[i]) {
+                    self.tally.label("exactly-at-expiry");
+                }
+                if self.reg[i].kind == TokKind::Retry {
+                    self.tally.label("retry-token");
+                } else {
+                    self.tally.label("new-token-token");
+                }
+            } else if matches!(p.mutn, Mutn::Flip(_)) && base.as_ref().is_some_and(|b| !b.foreign) {
+                nontrivial = true;
+                self.tally.flips += 1;
+                self.tally.label("one-bit-neighbour");
+            } else {
+                self.tally.label(match p.mutn {
+                    Mutn::Truncate(_) => "truncated",
+                    Mutn::Extend { .. } | Mutn::Prefix { .. } => "extended",
+                    Mutn::Splice(_) | Mutn::NonceSwap => "spliced",
+                    Mutn::ForeignKey => "foreign-key-twin",
+                    Mutn::Empty => "empty",
+                    Mutn::Random { .. } => "random-bytes",
+                    _ => {
+                        if base.as_ref().is_some_and(|b| b.foreign) {
+                            "foreign-server-token"
+                        } else {
+                            "other"
+                        }
+                    }
+                });
+            }
+            if nontrivial {
+                self.tally.one_binding += 1;
+            }
+            if rep > 0 {
+                self.tally.label("re-presented");
+            }
+            self.tally.presentations += 1;
+            if via_client {
+                self.tally.via_client += 1;
+                let (k, exps, server_conns_before) = self.client_phase(from, &bytes, p.retry_policy)?;
+                let first = exps.first().map(|e| e.1.clone());
+                let expired_in_flight = exps.iter().skip(1).any(|e| matches!(e.1, Exp::InvalidToken { .. }));
+                if expired_in_flight {
+                    self.tally.label("fresh-retry-token-expired-in-flight");
+                }
+                let c = &self.w.conns[k];
+                match first {
+                    Some(Exp::InvalidToken { why }) => {
+                        let closed_invalid = c.app.lost_reasons.iter().any(|r| transport_code(r) == Some((false, TransportErrorCode::INVALID_TOKEN)));
+                        if c.app.connected || !closed_invalid {
+                            return Err(CaseOut::fail(
+                                "c14/retry-token-misuse-not-invalid-token",
+                                format!("{why}: the client must see the attempt end with INVALID_TOKEN; connected == {}, lost == {:?}", c.app.connected, c.app.lost),
+                            ));
+                        }
+                        let now_conns = self.w.conns.iter().filter(|c| c.side.is_server()).count();
+                        if now_conns != server_conns_before {
+                            return Err(CaseOut::fail("c14/invalid-token-created-connection", format!("{why}: the server created a connection for the attempt")));
+                        }
+                        self.tally.label("client-saw-invalid-token");
+                    }
+                    Some(Exp::Absent { why }) => {
+                        if !c.app.connected && !expired_in_flight {
+                            return Err(CaseOut::fail(
+                                "c14/handshake-after-unusable-token-failed",
+                                format!("a token that must be treated as absent ({why}) kept the handshake from completing: lost == {:?} (presented from {from}, retry policy {})", c.app.lost, p.retry_policy),
+                            ));
+                        }
+                        if !bytes.is_empty() {
+                            self.tally.handshakes_completed_after_altered += 1;
+                        }
+                    }
+                    Some(Exp::ValOk { .. }) => {
+                        if !c.app.connected && !expired_in_flight {
+                            return Err(CaseOut::fail("c14/handshake-failed", format!("handshake with a genuine NEW_TOKEN token did not complete: {:?}", c.app.lost)));
+                        }
+                    }
+                    // replayed Retry token of an earlier attempt: address validated, but the client
+                    // (which saw no Retry) will refuse the CID echo - not asserted
+                    Some(Exp::RetryOk { .. }) => self.tally.label("retry-token-replayed-in-lifetime"),
+                    None => return Err(CaseOut::inconclusive("the client's Initial did not reach the server")),
+                }
+                self.register_new_tokens(false).map_err(|(s, m)| fail_or_inconclusive(s, m))?;
+            } else {
+                let exps = self.crafted_phase(from, &bytes)?;
+                if exps.is_empty() {
+                    return Err(CaseOut::inconclusive("crafted Initial was not evaluated"));
+                }
+            }
+        }
+        Ok(())
+    }
+
+    /// Tokens of a second server: another key, same client address, same clock
+    fn foreign_harvest(&mut self) -> Result<(), CaseOut> {
+        let skew2 = Arc::new(AtomicU64::new(self.skew.load(Ordering::Relaxed)));
+        let (w2, tap2) = build_world(self.a, self.foreign_key.clone(), skew2.clone());
+        let mut f = Ctx {
+            a: self.a,
+            w: w2,
+            tap: tap2,
+            skew: skew2,
+            key: self.foreign_key.clone(),
+            foreign_key: self.foreign_key.clone(),
+            reg: vec![],
+            injected: BTreeMap::new(),
+            trace_pos: 0,
+            tap_pos: 0,
+            craft_ctr: 0,
+            sim: self.sim,
+            tally: Tally::default(),
+            pending_stores: vec![],
+        };
+        f.harvest(0, true)?;
+        for mut t in f.reg {
+            t.foreign = true;
+            self.reg.push(t);
+        }
+        self.tally.label("foreign-server-harvest");
+        Ok(())
+    }
+}
+
+fn fail_or_inconclusive(sig: String, msg: String) -> CaseOut {
+    if sig.starts_with("c14/harness") {
+        CaseOut::inconclusive(format!("{sig}: {msg}"))
+    } else {
+        CaseOut::fail(sig, msg)
+    }
+}
+
+pub fn case_accept(a: &Accept) -> CaseOut {
+    exec_accept(a, None)
+}
+
+pub fn exec_accept(a: &Accept, stats: Option<&AcceptStats>) -> CaseOut {
+    let mut cx = Ctx::new(a);
+    if a.foreign_world {
+        if let Err(c) = cx.foreign_harvest() {
+            return c;
+        }
+    }
+    for op in &a.ops {
+        let r = match op {
+            Op::Harvest { from, retry } => cx.harvest(*from, *retry),
+            Op::Present(p) => cx.present(p),
+        };
+        if let Err(c) = r {
+            return c;
+        }
+    }
+    let t = &cx.tally;
+    if let Some(s) = stats {
+        s.presentations.fetch_add(t.presentations, Ordering::Relaxed);
+        s.genuine_ok.fetch_add(t.genuine_ok, Ordering::Relaxed);
+        s.one_binding.fetch_add(t.one_binding, Ordering::Relaxed);
+        s.flips.fetch_add(t.flips, Ordering::Relaxed);
+        s.invalid_token.fetch_add(t.invalid_token, Ordering::Relaxed);
+        s.bloom_ok.fetch_add(t.bloom_ok, Ordering::Relaxed);
+        s.bloom_fp.fetch_add(t.bloom_fp, Ordering::Relaxed);
+        s.via_client.fetch_add(t.via_client, Ordering::Relaxed);
+        s.altered_connected.fetch_add(t.handshakes_completed_after_altered, Ordering::Relaxed);
+    }
+    let mut labels = t.labels.clone();
+    if !cx.sim {
+        labels.push("rustls");
+    }
+    if a.ring_key {
+        labels.push("ring-token-key");
+    }
+    labels.push(match a.log {
+        LogKind::BloomDefault => "log-bloom-default",
+        LogKind::BloomTiny { .. } => "log-bloom-tiny",
+        LogKind::Exact => "log-exact",
+        LogKind::NoneLog => "log-none",
+    });
+    if t.invalid_token > 0 {
+        labels.push("invalid-token-close");
+    }
+    if t.bloom_fp > 0 {
+        labels.push("bloom-false-positive");
+    }
+    let retry_tokens = cx.reg.iter().filter(|k| k.kind == TokKind::Retry && !k.foreign).count();
+    let summary = json!({
+        "crypto": format!("{:?}", a.crypto), "ring_key": a.ring_key, "log": format!("{:?}", a.log),
+        "retry_lifetime_ms": a.retry_lifetime_ms, "new_token_lifetime_s": a.vt_lifetime_s,
+        "registry": {"retry_tokens": retry_tokens, "new_token_tokens": cx.reg.iter().filter(|k| k.kind == TokKind::Validation && !k.foreign).count(), "foreign": cx.reg.iter().filter(|k| k.foreign).count()},
+        "presentations": t.presentations, "exactly_one_binding_violated_or_one_bit_neighbour": t.one_binding, "accepted_genuine": t.genuine_ok,
+        "invalid_token_closes": t.invalid_token, "via_real_client": t.via_client,
+        "final_clock_skew_s": cx.skew.load(Ordering::Relaxed) / 1_000_000,
+    });
+    CaseOut { verdict: Verdict::Pass, labels, nontrivial: t.one_binding > 0, summary: Some(summary) }
+}
+
+// ---------------------------------------------------------------------------------------------
+// "Treated as absent", differentially: the same crafted Initial with and without the unusable token
+// ---------------------------------------------------------------------------------------------
+
+#[derive(Clone, Debug, Serialize, Deserialize, PartialEq)]
+pub struct Probe {
+    pub kind: u8,
+    pub tok: u16,
+    pub other: u16,
+    pub mutn: Mutn,
+    pub from: FromSel,
+    /// length of the Initial's destination CID (0..=20)
+    pub dcid_len: u8,
+}
+
+#[derive(Clone, Debug, Serialize, Deserialize, PartialEq)]
+pub struct Twin {
+    pub base: Accept,
+    pub probes: Vec<Probe>,
+}
+
+pub fn arb_twin() -> impl Strategy<Value = Twin> {
+    let probe = (
+        0u8..3,
+        any::<u16>(),
+        any::<u16>(),
+        arb_mutn(),
+        prop_oneof![4 => Just(FromSel::Issuing), 1 => Just(FromSel::OtherPort), 1 => Just(FromSel::OtherIp)],
+        prop_oneof![3 => 0u8..8, 2 => 8u8..=20],
+    )
+        .prop_map(|(kind, tok, other, mutn, from, dcid_len)| Probe { kind, tok, other, mutn, from, dcid_len });
+    (any::<u64>(), any::<bool>(), prop_oneof![2 => 0u8..8, 1 => 8u8..=20], 0u8..6, prop::collection::vec(probe, 1..12)).prop_map(|(seed, ring_key, server_cid_len, from, probes)| Twin {
+        base: Accept {
+            seed,
+            crypto: CryptoKind::Sim,
+            ring_key,
+            log: LogKind::Exact,
+            retry_lifetime_ms: 15_000,
+            vt_lifetime_s: 3_600,
+            tokens_sent: 1,
+            start_us: 0,
+            lat_us: [1000, 1000],
+            server_cid_len,
+            foreign_world: false,
+            ops: vec![Op::Harvest { from, retry: true }],
+        },
+        probes,
+    })
+}
+
+#[derive(Debug, Clone, PartialEq)]
+enum Outcome {
+    Incoming { validated: bool, may_retry: bool, odcid_is_dcid: bool },
+    /// stateless answer: CONNECTION_CLOSE codes in it
+    Response(Vec<u64>),
+    Nothing,
+}
+
+impl<'a> Ctx<'a> {
+    fn probe(&mut self, ctr: u64, addr: SocketAddr, token: &[u8], dcid_len: usize) -> Result<Outcome, CaseOut> {
+        let bytes = self.craft_initial_with(ctr, token, Some(dcid_len));
+        let dcid = parse_long(&bytes).map(|h| h.dcid).unwrap_or_default();
+        self.w.incoming_ignore = true;
+        let server = self.w.eps[SERVER_EP].addrs[0];
+        let at = self.w.now + self.a.lat_us[0] as u64;
+        let id = self.w.inject(at, server, addr, bytes);
+        let tr0 = self.w.trace.len();
+        self.w.run(at + 1, |_| false);
+        self.w.incoming_ignore = false;
+        if self.w.hit_step_limit {
+            return Err(CaseOut::inconclusive("step limit"));
+        }
+        if let Some(c) = world_violation(&mut self.w) {
+            return Err(c);
+        }
+        let mut resp: Option<Vec<u64>> = None;
+        for r in &self.w.trace[tr0..] {
+            match r {
+                Rec::TxEp { ep, dgram, inciting_size, .. } if *ep == SERVER_EP && *inciting_size > 0 => {
+                    resp = Some(dgram.pkts.iter().flat_map(|p| p.frames.iter().flatten()).filter_map(|f| if let OF::ConnectionClose { code, .. } = f { Some(*code) } else { None }).collect());
+                }
+                Rec::Rx { dgram_id, routed, .. } if *dgram_id == id => {
+                    return Ok(match routed {
+                        Routed::NewIncoming => {
+                            let inc = self.w.incoming_log.iter().rev().find(|i| i.dgram_id == id).cloned();
+                            match inc {
+                                Some(i) => Outcome::Incoming { validated: i.validated, may_retry: i.may_retry, odcid_is_dcid: i.odcid == dcid },
+                                None => return Err(CaseOut::inconclusive("Incoming without record")),
+                            }
+                        }
+                        Routed::Response(_) => Outcome::Response(resp.unwrap_or_default()),
+                        _ => Outcome::Nothing,
+                    });
+                }
+                _ => {}
+            }
+        }
+        Err(CaseOut::inconclusive("probe was not delivered"))
+    }
+}
+
+/// A token that is not usable (not issued by this server) must change nothing: the Initial gets the
+/// same treatment as the identical Initial without a token - for every destination CID length.
+pub fn case_twin(t: &Twin) -> CaseOut {
+    let mut cx = Ctx::new(&t.base);
+    for op in &t.base.ops {
+        if let Op::Harvest { from, retry } = op {
+            if let Err(c) = cx.harvest(*from, *retry) {
+                return c;
+            }
+        }
+    }
+    let scl = t.base.server_cid_len.clamp(4, 20) as usize;
+    let mut labels: Vec<&'static str> = vec![];
+    let mut nontrivial = false;
+    let mut samples = vec![];
+    for (i, p) in t.probes.iter().enumerate() {
+        let cand: Vec<usize> = (0..cx.reg.len())
+            .filter(|&i| match p.kind {
+                1 => cx.reg[i].kind == TokKind::Retry,
+                2 => cx.reg[i].kind == TokKind::Validation,
+                _ => true,
+            })
+            .collect();
+        if cand.is_empty() {
+            return CaseOut::inconclusive("nothing harvested");
+        }
+        let base = cx.reg[cand[p.tok as usize % cand.len()]].clone();
+        let other = cx.reg[p.other as usize % cx.reg.len()].clone();
+        let bytes = cx.mutate(Some(&base), Some(&other), &p.mutn);
+        if bytes.is_empty() || cx.reg.iter().any(|k| k.bytes == bytes) {
+            continue; // genuine tokens are the business of the binding model
+        }
+        let from = match &p.from {
+            FromSel::OtherPort => SocketAddr::new(base.addr.ip(), base.addr.port() ^ 1),
+            FromSel::OtherIp => other_ip(base.addr),
+            _ => base.addr,
+        };
+        let ctr = 1000 + i as u64;
+        let dl = p.dcid_len.min(20) as usize;
+        let without = match cx.probe(ctr, from, &[], dl) {
+            Ok(o) => o,
+            Err(c) => return c,
+        };
+        let with = match cx.probe(ctr, from, &bytes, dl) {
+            Ok(o) => o,
+            Err(c) => return c,
+        };
+        if dl < 8 {
+            labels.push("dcid-shorter-than-8");
+            if dl == scl {
+                labels.push("short-dcid-of-server-cid-length");
+                nontrivial = true;
+            }
+        }
+        if matches!(p.mutn, Mutn::Flip(_)) {
+            nontrivial = true;
+        }
+        if with != without {
+            // known shape (genuine finding): the DCID length rule for first Initials is skipped as soon
+            // as any token is attached and the DCID has the server's own CID length
+            let short_dcid_shape = dl < 8 && dl == scl && without == Outcome::Response(vec![0x0a]) && matches!(with, Outcome::Incoming { validated: false, may_retry: true, odcid_is_dcid: true });
+            return CaseOut::fail(
+                if short_dcid_shape { "c14/short-dcid-accepted-with-unusable-token" } else { "c14/unusable-token-changes-treatment" },
+                format!(
+                    "an Initial with a {dl}-byte destination CID (server CID length {scl}) from {from}: without token => {without:?}; with the unusable token {} ({:?} of a genuine {:?} token, {} bytes) => {with:?}",
+                    hex(&bytes[..bytes.len().min(20)]),
+                    p.mutn,
+                    base.kind,
+                    bytes.len()
+                ),
+            );
+        }
+        if samples.len() < 3 {
+            samples.push(json!({"dcid_len": dl, "mutation": format!("{:?}", p.mutn), "outcome": format!("{with:?}")}));
+        }
+    }
+    labels.sort();
+    labels.dedup();
+    CaseOut { verdict: Verdict::Pass, labels, nontrivial, summary: Some(json!({"server_cid_len": scl, "probes": samples})) }
+}
+
+// ---------------------------------------------------------------------------------------------
+// Enumerations: every single-bit flip and every truncation length of a handful of tokens
+// ---------------------------------------------------------------------------------------------
+
+fn enum_scenarios(report: &Report) -> Vec<Accept> {
+    let thorough = report.opts.tier == Tier::Thorough;
+    let mut out = vec![];
+    let mut configs: Vec<(CryptoKind, bool, u64)> = vec![(CryptoKind::Sim, false, 1), (CryptoKind::Sim, true, 2), (CryptoKind::Rustls, true, 3), (CryptoKind::Sim, false, 4), (CryptoKind::Sim, true, 5)];
+    if thorough {
+        for i in 0..12 {
+            configs.push((CryptoKind::Sim, i % 2 == 0, 10 + i));
+        }
+        for i in 0..3 {
+            configs.push((CryptoKind::Rustls, true, 30 + i));
+        }
+    }
+    for (crypto, ring_key, n) in configs {
+        let seed = mix(report.opts.seed, 0xf11b + n);
+        let rustls = crypto == CryptoKind::Rustls;
+        // token lengths: Retry <= 1+19+21+8+16+16 = 81 bytes, NEW_TOKEN <= 1+17+8+16+16 = 58 bytes
+        let stride = if rustls && !thorough { 8 } else { 1 };
+        let from = (n % 6) as u8;
+        for kind in [1u8, 2u8] {
+            let bits: Vec<u16> = (0..(84 * 8) as u16).step_by(stride).collect();
+            for chunk in bits.chunks(if rustls { 24 } else { 96 }) {
+                let mut ops = vec![Op::Harvest { from, retry: true }];
+                for &b in chunk {
+                    ops.push(Op::Present(Pres { kind, tok: 0, other: 0, mutn: Mutn::Flip(b), from: FromSel::Issuing, when: WhenSel::Now, retry_policy: b % 2 == 0, via_client: rustls, repeat: 0 }));
+                }
+                // positive control at the end: the genuine token still works
+                ops.push(Op::Present(Pres { kind, tok: 0, other: 0, mutn: Mutn::Genuine, from: FromSel::Issuing, when: WhenSel::Now, retry_policy: false, via_client: rustls, repeat: 0 }));
+                out.push(Accept { seed, crypto: crypto.clone(), ring_key, log: LogKind::Exact, retry_lifetime_ms: 15_000, vt_lifetime_s: 3_600, tokens_sent: 1, start_us: 123_456, lat_us: [1000, 1000], server_cid_len: 8, foreign_world: false, ops });
+            }
+            if !rustls || thorough {
+                let lens: Vec<u16> = (0..84u16).collect();
+                for chunk in lens.chunks(if rustls { 28 } else { 84 }) {
+                    let mut ops = vec![Op::Harvest { from, retry: true }];
+                    for &l in chunk {
+                        ops.push(Op::Present(Pres { kind, tok: 0, other: 0, mutn: Mutn::Truncate(l), from: FromSel::Issuing, when: WhenSel::Now, retry_policy: l % 2 == 0, via_client: rustls, repeat: 0 }));
+                    }
+                    out.push(Accept { seed, crypto: crypto.clone(), ring_key, log: LogKind::Exact, retry_lifetime_ms: 15_000, vt_lifetime_s: 3_600, tokens_sent: 1, start_us: 123_456, lat_us: [1000, 1000], server_cid_len: 8, foreign_world: false, ops });
+                }
+            }
+        }
+    }
+    out
+}
+
+/// `Flip(i)` is taken modulo the token's bit length and `Truncate(n)` modulo its byte length, so
+/// 0..84*8 / 0..84 cover every bit and every proper prefix of tokens up to 84 bytes at least once.
+fn run_enum(report: &Report) {
+    let name = "c14a-flips";
+    if !report.wants(name) {
+        return;
+    }
+    let started = std::time::Instant::now();
+    let scen = enum_scenarios(report);
+    let stats = AcceptStats::default();
+    let next = AtomicU64::new(0);
+    let results: Mutex<Vec<(usize, CaseOut)>> = Mutex::new(vec![]);
+    let classes: Mutex<BTreeMap<String, u64>> = Mutex::new(BTreeMap::new());
+    std::thread::scope(|sc| {
+        for _ in 0..report.opts.threads.max(1) {
+            sc.spawn(|| loop {
+                let i = next.fetch_add(1, Ordering::Relaxed) as usize;
+                if i >= scen.len() {
+                    break;
+                }
+                let out = match catch(|| exec_accept(&scen[i], Some(&stats))) {
+                    Ok(o) => o,
+                    Err(p) => panic_to_case(p, false),
+                };
+                {
+                    let mut c = classes.lock().unwrap();
+                    for l in &out.labels {
+                        *c.entry(l.to_string()).or_insert(0) += 1;
+                    }
+                }
+                results.lock().unwrap().push((i, out));
+            });
+        }
+    });
+    let mut results = results.into_inner().unwrap();
+    results.sort_by_key(|r| r.0);
+    let mut sub = SubStats {
+        name: name.into(),
+        rule: "enumeration: every single-bit flip (every 8th bit under rustls in the quick tier) and every truncation length of one harvested Retry token and one NEW_TOKEN token per configuration (SimCrypto with the keyed-tag token key, SimCrypto with the ring HKDF/AES-GCM key, rustls), presented from the issuing address within the lifetime: never validated, always treated as absent, and the untouched token is accepted afterwards; every case is a one-bit neighbour / proper prefix of a genuine token".into(),
+        exhaustive: true,
+        classes: classes.into_inner().unwrap(),
+        ..SubStats::default()
+    };
+    let mut reported = false;
+    for (i, out) in results {
+        sub.evaluations += scen[i].ops.len() as u64 - 1;
+        match out.verdict {
+            Verdict::Pass => {
+                sub.distinct_nontrivial += scen[i].ops.iter().filter(|o| matches!(o, Op::Present(p) if p.mutn != Mutn::Genuine)).count() as u64;
+                if sub.samples.len() < 2 {
+                    sub.samples.extend(out.summary);
+                }
+            }
+            Verdict::Fail { sig, msg } => {
+                if !reported || report.is_known(&sig) {
+                    // shrink greedily: drop presentations that are not needed
+                    let mut s = scen[i].clone();
+                    let mut j = 1;
+                    while j < s.ops.len() {
+                        let mut t = s.clone();
+                        t.ops.remove(j);
+                        let again = catch(|| exec_accept(&t, None)).ok();
+                        if matches!(again.map(|o| o.verdict), Some(Verdict::Fail { sig: s2, .. }) if s2 == sig) {
+                            s = t;
+                        } else {
+                            j += 1;
+                        }
+                    }
+                    let known = report.is_known(&sig);
+                    report.fail_direct("c14a-accept", &sig, msg, serde_json::to_value(&s).unwrap());
+                    reported |= !known;
+                }
+            }
+            Verdict::Discard(_) => sub.discards += 1,
+            Verdict::Inconclusive(why) => {
+                sub.inconclusive += 1;
+                report.note(format!("[{name}] inconclusive: {why}"));
+                println!("    inconclusive: {why}");
+            }
+        }
+    }
+    sub.wall_s = started.elapsed().as_secs_f64();
+    println!(
+        "  [{}] worlds={} presentations={} nontrivial={} inconclusive={} {:.1}s (one-bit neighbours {}, accepted genuine {})",
+        name,
+        scen.len(),
+        sub.evaluations,
+        sub.distinct_nontrivial,
+        sub.inconclusive,
+        sub.wall_s,
+        stats.flips.load(Ordering::Relaxed),
+        stats.genuine_ok.load(Ordering::Relaxed)
+    );
+    report.add_sub(sub);
+}
+
+pub const RULE_ACCEPT: &str = "proptest-generated worlds: one server (SimCrypto or rustls; SimTokenKey or ring HKDF/AES-GCM token key; token log in {BloomTokenLog default, tiny BloomTokenLog, exact set, NoneTokenLog}; Retry lifetime 1 s..14 d, NEW_TOKEN lifetime 1 s..30 d; 1-3 NEW_TOKEN frames per connection; harness wall clock with generated forward jumps), tokens harvested in that world from Retry packets and NEW_TOKEN frames (plus a second server with another key), then 3-40 presentations by real clients or crafted Initials: genuine / bit flip / truncation / extension / prefix / splice / nonce swap / same plaintext under a foreign key / random / empty, from the issuing address, same IP other port, other IP, IPv4 <-> IPv4-mapped form, at clock values before / exactly at / 1 us after / long after floor(issued)+lifetime, repeated; oracle: binding model over the registry of issued byte strings (validated only if byte-identical to an issued token and address, lifetime and first-use bindings hold; otherwise exactly like no token; stale or moved Retry token => Initial CONNECTION_CLOSE INVALID_TOKEN and no connection; genuine fresh first-use tokens are accepted where deterministic); non-trivial = a presentation violated exactly one binding of a token that is genuine for this server, or was a one-bit neighbour of one";
+
+pub const RULE_TWIN: &str = "proptest-generated pairs of crafted Initials that are identical (same CIDs of length 0..20, same source address, same payload) except that one carries an unusable token (bit flip, truncation, extension, splice, nonce swap, foreign key, random bytes derived from tokens harvested in the same world) - server CID length 4..20, SimTokenKey or ring key; oracle: the server's treatment (Incoming with the same validated / may_retry / original DCID, or the same stateless answer, or silence) must be identical: an unusable token is treated as absent; non-trivial = one-bit neighbour of a genuine token, or a destination CID shorter than 8 bytes of exactly the server's CID length";
+
+pub fn run_sub(report: &Report) {
+    report.assume("C14: unforgeability of the token AEAD itself (ring AES-256-GCM / SimCrypto keyed tag) and of the Retry integrity tag construction is assumed; the checks show that quinn consults them and binds tokens to address, lifetime and first use");
+    report.assume("C14a: the issue time of a NEW_TOKEN token is the server clock when the datagram carrying the frame was emitted (observed on the link under SimCrypto; read from the token plaintext through the verif hook under rustls, where frames are not observable); the registry is cross-checked against the token plaintext");
+    let stats = AcceptStats::default();
+    run_prop(report, "c14a-accept", RULE_ACCEPT, arb_accept, report.cases(30_000, 500_000), |a| exec_accept(a, Some(&stats)));
+    if report.wants("c14a-accept") {
+        let g = |a: &AtomicU64| a.load(Ordering::Relaxed);
+        let line = format!(
+            "[c14a-accept] {} presentations ({} by real clients), {} with exactly one binding violated or a one-bit neighbour ({} bit flips), {} genuine tokens accepted (positive control), {} INVALID_TOKEN closes, bloom logs: {} fresh tokens accepted / {} refused (false positives, tolerated), {} handshakes completed although an unusable token was presented",
+            g(&stats.presentations),
+            g(&stats.via_client),
+            g(&stats.one_binding),
+            g(&stats.flips),
+            g(&stats.genuine_ok),
+            g(&stats.invalid_token),
+            g(&stats.bloom_ok),
+            g(&stats.bloom_fp),
+            g(&stats.altered_connected)
+        );
+        println!("  {line}");
+        report.note(line);
+        let (ok, fp) = (g(&stats.bloom_ok), g(&stats.bloom_fp));
+        if ok + fp > 200 && ok == 0 {
+            report.fail_direct(
+                "c14a-accept-bloom",
+                "c14/genuine-token-rejected",
+                format!("BloomTokenLog worlds: none of {fp} genuine fresh first-use NEW_TOKEN tokens was accepted"),
+                json!({"bloom_ok": ok, "bloom_refused": fp}),
+            );
+        }
+    }
+    run_prop(report, "c14a-twin", RULE_TWIN, arb_twin, report.cases(20_000, 500_000), case_twin);
+    run_enum(report);
+    c14b::run_sub(report);
+}
